@@ -835,16 +835,21 @@ func subProp(c subCase) ev.Outcome {
 	return o
 }
 
-func TestC12(t *testing.T) {
-	r := ev.New("C12", "exploration",
+func newRec() *ev.Rec {
+	return ev.New("C12", "exploration",
 		"strings: up to 8 runes drawn from an alphabet of regex metacharacters .*+?()[]{}|^$\\, LIKE characters _ % and space, quotes, newline, tab, multibyte runes (é É ß İ ſ K(U+212A) 漢 😀), case pairs, digits, '-' (plus the shared edge-string pool); valid UTF-8 only. "+
 			"like_vs_model: LIKE patterns from tokens {literal rune, _, %, \\_, \\%, \\\\}, 70% derived from the subject (literal / _ / % over a run / % over nothing / dropped / substituted / inserted token) so matches and near misses are frequent, 30% independent; ~10% carry an invalid escape or trailing backslash and are only required not to crash; oracle = rune-level DP matcher model.LikeMatch. "+
 			"regex_vs_go: patterns from a grammar (escaped and raw literals, ., classes, \\S \\W \\D \\B \\pL \\PL ..., repetition, groups with flags, anchors, alternation), subjects drawn from the alphabet plus the pattern's letters and their case/fold partners; oracle regexp.MatchString(p, s) for ~ and regexp.MatchString(\"(?i)\"+p, s) for ~*, a pattern Go rejects must give an error. "+
 			"upper_lower_reverse: per-rune unicode mapping or strings.ToUpper/ToLower (both accepted), rune reversal and reverse(reverse(s))=s. replace_position: needle mostly a substring of the subject (also repetitive subjects), naive left-to-right replacement, first occurrence (byte or character offset accepted) or NULL. "+
 			"len_substr: len additive over + and = character count on ASCII; substr(s,0)=s; substr(s,position(s,t),len(t))=t; substr(s,i)=substr(s,i,len(s)); substr(s,i,n)+substr(s,i+n)=substr(s,i) for 0<=i,n<=len+2; direct slice model on ASCII subjects. "+
+			"native_fuzz (thorough tier only): go test -fuzz over (subject, pattern, operator in {LIKE, ~, ~*}), valid UTF-8 of at most 200 bytes each, seeded with hand-picked pairs; same oracles. "+
 			"non-trivial: (pattern has a wildcard or a literal/regex metacharacter) AND (subject has a metacharacter, newline or multibyte rune); for the pattern-free subs: the subject (or needle) has one. distinct = canonical case JSON",
 		"only valid UTF-8 is generated; negative substr arguments and empty replace needles are outside this property (C07)",
 		"a deviation is attributed to a known finding only when octosql's answer equals what the harness's model of that defect answers (LIKE: '*' and '|' left raw / wildcards refusing newline; ~*: lower-casing pattern and subject) or, for reverse, when the input has a multibyte rune")
+}
+
+func TestC12(t *testing.T) {
+	r := newRec()
 	ev.Check(t, r, "like_vs_model", ev.N(120000, 2000000), genLike, likeProp(r))
 	ev.Check(t, r, "regex_vs_go", ev.N(100000, 1600000), genRegex, regexProp(r))
 	ev.Check(t, r, "upper_lower_reverse", ev.N(30000, 400000), func(t *rapid.T) unaryCase {
@@ -852,4 +857,5 @@ func TestC12(t *testing.T) {
 	}, unaryProp(r))
 	ev.Check(t, r, "replace_position", ev.N(30000, 500000), genRepl, replProp)
 	ev.Check(t, r, "len_substr", ev.N(30000, 500000), genSub, subProp)
+	ev.ReplayOnly(t, r, "native_fuzz", c12FuzzProp(r))
 }
